@@ -1,5 +1,6 @@
 import Casm.Model.Bits
 import Casm.Model.Show
+import Casm.Model.OutFormat
 /-! casm-model: answers the line protocol from the Lean model's executable definitions. -/
 open Casm
 
@@ -44,7 +45,7 @@ def step (line : String) : String :=
   | ["tok", t] =>
     let toks := tokenize (unhexText t)
     " ".intercalate (toks.map fun tk =>
-      let len := if tk.kind == .Error then Gen.errorTokenLen else utf8Len tk.text
+      let len := if tk.kind == .Error then (Gen.errorTokenLen.getD (utf8Len tk.text)) else utf8Len tk.text
       s!"{Gen.tokKindName tk.kind}:{len}")
   | ["lit", t] =>
     match excerptAsBigint (unhexText t) with
@@ -52,6 +53,23 @@ def step (line : String) : String :=
     | .error .invalidDigits => "err invalid digits"
     | .error .invalidValue => "err invalid value"
     | .error .empty => "panic"
+  | ["ofmt", t] =>
+    match parseOutputFormat (unhexText t) with
+    | .ok f => s!"ok {showOutFmt f}"
+    | .error e => s!"err {e}"
+  | ["fmt", t, bits, spans] =>
+    match parseOutputFormat (unhexText t) with
+    | .error e => s!"err {e}"
+    | .ok f =>
+      let bs : Bits := if bits == "-" then [] else bits.toList.map (· == '1')
+      let sp : List Span := if spans == "-" then [] else
+        (spans.splitOn ",").map fun s =>
+          match s.splitOn ":" with
+          | [o, z] => ⟨o.toNat?, z.toNat?.getD 0⟩
+          | _ => ⟨none, 0⟩
+      match formatOutputBytes f bs sp with
+      | some bytes => s!"out {hexOfBytes bytes}"
+      | none => "unsupported"
   | _ => "bad-op"
 
 partial def loop (h : IO.FS.Stream) (out : IO.FS.Stream) : IO Unit := do
